@@ -231,7 +231,8 @@ def nameEncOK (name : List Char) : Bool :=
   let u := utf16Units name
   0 < u.length && u.length ≤ 31 && !(name.contains (Char.ofNat 0))
 
-def nameOK (name : List Char) : Bool := nameEncOK name && name != rootName
+/-- a stream may have any encodable name, `Root Entry` included: the root entry is not a stream entry -/
+def nameOK (name : List Char) : Bool := nameEncOK name
 
 def validB (streams : List Stream) (L : Layout) : Bool :=
   let n := streams.length
